@@ -374,7 +374,7 @@ theorem c07_terms_pinned (cur : DBState) (t : Terms) (now : Int) (h : validatePr
   have hb : t.beaconID = cur.beaconID := by
     by_cases hb : cur.beaconID = t.beaconID
     · exact hb.symm
-    · simp [validateForAllDKGs, hb, bind, Except.bind, throw, throwThe, MonadExceptOf.throw] at h
+    · simp [validateForAllDKGs, validateForAllDKGsV, hb, bind, Except.bind, throw, throwThe, MonadExceptOf.throw] at h
   refine ⟨hb, ?_⟩
   cases h1 : validateForAllDKGs cur t now with
   | error e => simp [h1, bind, Except.bind] at h
